@@ -12,21 +12,39 @@ CHECKS = {
  "C03": ("runtime monitor: differential oracle (i128/f64 reference operator table) over a complete operator x edge-value matrix plus seeded random operands",
          "Every operator application produced by the workload is compared bit-for-bit (values) or by error class (errors) with an independent reference table, through variable, literal and op-assignment routes. " + HELD,
          "Trusts the reference table (self-checked against README facts) and libm's powf/fmod (same functions on both sides).", "DESIGN.md §4 C03"),
+ "C04": ("runtime monitor: history + executable model (abstract typed map) — every context operation applied to a real HashMapContext and to the model, complete observable state compared after every step; BFS over (abstract state, last-op kind) x all operations, plus long random histories with live clones",
+         "After every step of every explored history the return value and the complete observable state of the context (and of every clone left behind) equal the model's. " + HELD,
+         "Trusts the 20-line map model and the reference evaluator for expression steps; BFS complete only within its key budget.", "DESIGN.md §4 C04"),
  "C05": ("runtime monitor: reference parser + reference evaluator over exhaustive separator skeletons, exhaustive token sequences with separators, random sequence programs; effects observed through a RecordingContext",
          "Tree shape, value, final context and effect order of every well-formed sequence program in the workload are compared with the reference. " + HELD,
          "Trusts the reference parser/evaluator (self-checked against README scripts).", "DESIGN.md §4 C05"),
+ "C06": ("runtime monitor: round-trip oracle through the harness's own renderers (quote, decimal/hex, 8 float renderings) and tree-constant extraction for embedded literals; reference word classifier for identifiers",
+         "Every literal produced by the workload evaluates / precompiles to exactly the value it was rendered from; illegal escapes and truncated literals are errors; non-literal words are assignable identifiers. " + HELD,
+         "Trusts Rust's shortest-round-trip float formatting (every rendering is parsed back by the harness first).", "DESIGN.md §4 C06"),
+ "C07": ("runtime monitor: metamorphic oracle (two separator plans of one token sequence must give equal trees / equal errors), plans validated by the reference lexer; exhaustive short token sequences + random programs",
+         "For every token sequence of the workload, the canonical rendering and k random separator plans (25 whitespace characters, block/line comments, empty gaps where no fusion is possible) precompile identically. " + HELD,
+         "Implementation against implementation; trusts the reference lexer only to reject plans that would fuse tokens.", "DESIGN.md §4 C07"),
  "C08": ("runtime monitor: event-log oracle (RecordingContext + recording user functions vs reference interpreter) and online trace specification on the H2 evaluation-schedule hook",
          "For every program of the workload the triple (result, final context, ordered effect log) equals the reference interpreter's and the hooked evaluation schedule satisfies the left-to-right / exactly-once / stop-at-first-failure specification. " + HELD,
          "Trusts the reference interpreter; the hook only adds observations (monitor degrades to boundary-only if it is silent).", "DESIGN.md §4 C08, §3.4"),
+ "C09": ("runtime monitor: lookup-model oracle over the complete configuration matrix (names x context kinds x switch x user function x variable x call forms x entry points) with callee identification through recording functions",
+         "Every cell of the finite configuration matrix resolves as the model says: callee, argument shape, error kind and name. " + HELD,
+         "Trusts the reference evaluator's function lookup (user function first, then builtins unless disabled).", "DESIGN.md §4 C09"),
  "C10": ("runtime monitor: differential oracle (49 reference builtins from the README table) over the complete names x argument-shape matrix, unit-consistency sweep for len/substring, type-directed random arguments",
          "Every builtin call in the workload is compared with its reference (bit-exact value / error where documented; documented-silent points accepted). " + HELD,
          "Trusts std's f64 functions and Unicode tables (same on both sides); the wiring (which function, argument order, conversions, arity/type checks) is what is checked.", "DESIGN.md §4 C10"),
  "C11": ("runtime monitor: metamorphic oracle (immutable vs mutable evaluation of the same program on clones of one context, projected through the reference) + context-unchanged check + H2 prefix rule",
          "For every (program, context) pair of the workload the read-only result equals the projected mutable result, the context is observably unchanged and never asked to store, and contexts without storage reject assignments. " + HELD,
          "Trusts the reference only to locate the first applied assignment; the rest is implementation against implementation.", "DESIGN.md §4 C11"),
+ "C12": ("runtime monitor: metamorphic oracle — all 24 string-level and 24 tree-level entry points called on clones of one context and compared with the projection of the untyped evaluation",
+         "For every (string, context) pair of the workload each typed / precompiled / context-free entry point returns exactly the projected untyped result and leaves the same final context. " + HELD,
+         "Implementation against implementation; the projection table is 7 match statements in the harness.", "DESIGN.md §4 C12"),
  "C13": ("runtime monitor: reference recogniser classification (ill-formed) vs real parser + arity table + confirming evaluation in 12 probe contexts, over exhaustive token sequences and damaged programs",
          "Every sequence the reference classifies ill-formed is checked to be rejected, or to have a wrong-arity node, or at least to evaluate in none of the probe contexts; parenthesis balance errors are checked both ways. " + HELD,
          "Trusts the reference recogniser; ill-formed inputs accepted with correct arity that evaluate nowhere are counted, not reported.", "DESIGN.md §4 C13"),
+ "C14": ("runtime monitor: occurrence-list oracle from the generating AST for the 10 identifier iterators + renaming metamorphic test + unknown-identifier containment",
+         "For every program of the workload the iterators list exactly the identifier occurrences in source order by class, and consistent renaming through the mutable iterators and the context leaves the result unchanged. " + HELD,
+         "Trusts the reference parser (C02) for the AST and pre-order = source order for this grammar.", "DESIGN.md §4 C14"),
 }
 NOT_YET = "check under construction in this session (see DESIGN.md §4); will be claimed once its monitor is committed"
 
